@@ -13,7 +13,10 @@ import (
 // through the importer. Model of applicability: go/types on the plain call of each candidate, in index order.
 
 var c06Params = []string{"a int", "a string", "a float64", "a any", "a ...int", "a int, b string", "a MyN", "f func(int)", "a []int", "a int, b ...string", "a *int", "a, b int",
-	"a int8", "a uint8", "", "a error", "a map[string]int", "f func(int) int", "a bool", "a ...any", "a float32", "a []byte", "a string, b ...any", "a rune"}
+	"a int8", "a uint8", "", "a error", "a map[string]int", "f func(int) int", "a bool", "a ...any", "a float32", "a []byte", "a string, b ...any", "a rune",
+	// Lv has an implicit conversion from int (Lv_Init): a candidate that takes it rewrites the ARGUMENT EXPRESSION (not its type)
+	// before it can fail on a later parameter — the residue case for backupArgs/restoreArgs
+	"a Lv, b string", "a Lv", "a Lv, b ...string", "a Lv, b Lv", "a string, b Lv"}
 
 var c06Generic = []string{"[T any](a T)", "[T int | string](a, b T)", "[T any](a []T)", "[T comparable](a, b T)", "[K comparable, V any](m map[K]V)", "[T any](f func(T))", "[T ~int](a T)"}
 
@@ -46,13 +49,68 @@ type c06Family struct {
 	src   string
 	ncand int
 	sigs  []string
+	msigs map[bool][]string // parameter lists: [true] of the functions F__i, [false] of the methods M__i
+}
+
+// splitArgs splits a comma separated argument list at top level.
+func splitArgs(s string) []string {
+	if strings.TrimSpace(s) == "" {
+		return nil
+	}
+	var out []string
+	depth, start := 0, 0
+	for i, c := range s {
+		switch c {
+		case '(', '{', '[':
+			depth++
+		case ')', '}', ']':
+			depth--
+		case ',':
+			if depth == 0 {
+				out = append(out, strings.TrimSpace(s[start:i]))
+				start = i + 1
+			}
+		}
+	}
+	return append(out, strings.TrimSpace(s[start:]))
+}
+
+// wrapInit rewrites the arguments at the positions of Lv parameters to fxo.Lv_Init(arg); "" if sig has no Lv parameter.
+func wrapInit(sig, args string) string {
+	if !strings.Contains(sig, "Lv") || strings.HasPrefix(sig, "[") {
+		return ""
+	}
+	ps := splitArgs(strings.Trim(sig, "()"))
+	as := splitArgs(args)
+	if strings.HasSuffix(args, "...") {
+		return ""
+	}
+	changed := false
+	for i := range as {
+		pi := i
+		if pi >= len(ps) {
+			pi = len(ps) - 1
+		}
+		if pi < 0 {
+			break
+		}
+		f := strings.Fields(ps[pi])
+		if len(f) > 0 && f[len(f)-1] == "Lv" {
+			as[i] = "fxo.Lv_Init(" + as[i] + ")"
+			changed = true
+		}
+	}
+	if !changed {
+		return ""
+	}
+	return strings.Join(as, ", ")
 }
 
 func c06Fixture(r *h.Rand, path string) c06Family {
 	n := 1 + r.Intn(6)
 	var sb strings.Builder
-	sb.WriteString("package fxo\n\nconst XGoPackage = true\n\ntype MyN int\ntype T struct{ V int }\n")
-	fam := c06Family{path: path, ncand: n}
+	sb.WriteString("package fxo\n\nconst XGoPackage = true\n\ntype MyN int\ntype T struct{ V int }\ntype Lv struct{ N int }\nfunc Lv_Init(v int) Lv { return Lv{v} }\n")
+	fam := c06Family{path: path, ncand: n, msigs: map[bool][]string{}}
 	var ifaceMethods []string
 	for k := 0; k < n; k++ {
 		var sig string
@@ -62,11 +120,13 @@ func c06Fixture(r *h.Rand, path string) c06Family {
 			sig = "(" + h.Pick(r, c06Params) + ")"
 		}
 		fam.sigs = append(fam.sigs, sig)
+		fam.msigs[true] = append(fam.msigs[true], sig)
 		fmt.Fprintf(&sb, "type RF%d int\nfunc F__%d%s (r RF%d) { return }\n", k, k, sig, k)
 		msig := sig
 		if strings.HasPrefix(sig, "[") { // methods cannot be generic
 			msig = "(" + h.Pick(r, c06Params) + ")"
 		}
+		fam.msigs[false] = append(fam.msigs[false], msig)
 		recv := "T"
 		if r.Chance(40) {
 			recv = "*T"
@@ -111,6 +171,14 @@ func c06Run(tier string, seed uint64, i int) []h.Result {
 				if len(ck.Errs) == 0 {
 					want = k
 					break
+				}
+				// documented extension: a parameter of a type T with T_Init accepts what T_Init accepts (implicit conversion)
+				if w := wrapInit(fam.msigs[callee == "fxo.F"][k], args); w != "" {
+					ck := u.Check("main", c06Prog(path, fmt.Sprintf("_ = %s%s__%d(%s)", base, name, k, w)))
+					if len(ck.Errs) == 0 {
+						want = k
+						break
+					}
 				}
 			}
 			stmt := fmt.Sprintf("_ = %s(%s)", callee, args)
